@@ -124,7 +124,7 @@ def k18_annotate(ctx, pid: str):
         items = com.items if isinstance(com, AList) else ([com] if com is not None else [])
         txt = [repr(x) for x in items]
         okv = any("id(V)" in t for t in txt)
-        okm = any("map(modules," in t and "id(m)" in t and "filter" not in t for t in txt)
+        okm = any(("map(modules," in t or "generic<modules>" in t) and "id(m)" in t and "filter" not in t for t in txt)
         edited = [e for e in o.path.effects if e[0] in ("setitem", "mutate") and isinstance(e[1], Term) and any(repr(e[1]) in t for t in txt)]
         if edited:
             okm = False  # the list that is joined was edited in place (shortened, abbreviated ...) before the join
